@@ -529,10 +529,10 @@ def _bump(v):
         return not v
     if isinstance(v, int):
         return v + 1
-    if isinstance(v, dict) and "p" in v:
+    if isinstance(v, dict) and "ply" in v:
         # a polynomial of the symbolic lane: change one coefficient (or make the zero polynomial non-zero)
-        t = v["p"]
-        return {"p": ([[t[0][0] + 1, t[0][1]]] + t[1:]) if t else [[1, 1]]}
+        t = v["ply"]
+        return {"ply": ([[t[0][0] + 1, t[0][1]]] + t[1:]) if t else [[1, 1]]}
     return v
 
 
